@@ -16,7 +16,11 @@
          a:<h> inbound <a h=.../> through the parser    i  inbound <message/> through the parser
          c  "connect": sm_state allocated if NULL (as xmpp_connect_client does), state CONNECTED,
             stream_negotiation_completed        d  state DISCONNECTED
-   output: one line of key=value fields (see dump_conn / run_ops), or nothing when the process dies
+   output: one line of key=value fields (see dump_conn / run_ops), or nothing when the process dies.  Each op list
+   <name>= is followed by <name>x=: one entry per op, "<blob>|<live>": the blob handed to the SM callback
+   during that op (hex, "null", or "=" when no callback fired) and the live connection's content after the op
+   (live_state(); "=" when unchanged since the previous entry), so that a reader can see whether the last blob
+   the application holds still describes the connection
    (the orchestrator turns that into a CRASH line).                                                        */
 #include "vharness.h"
 #include "common.h"
@@ -209,6 +213,44 @@ static void dump_conn2(xmpp_conn_t *c, int deref_sm)
 }
 static void dump_conn(xmpp_conn_t *c) { dump_conn2(c, 1); }
 
+static void fput_text(FILE *f, const char *d, size_t n)
+{
+    size_t i;
+    if (!d) fputc('N', f);
+    else if (n == 0) fputc('z', f);
+    else for (i = 0; i < n; i++) fprintf(f, "%02x", (unsigned char)d[i]);
+}
+
+/* what a blob is supposed to describe: flags_sent_handled_id_unsent_unacked ("n" without a usable sm_state) */
+static char *live_state(xmpp_conn_t *c, int deref_sm)
+{
+    char *buf = NULL;
+    size_t len = 0, n;
+    FILE *f = open_memstream(&buf, &len);
+    xmpp_send_queue_t *e;
+    if (!c->sm_state || !deref_sm) fputc('n', f);
+    else {
+        xmpp_sm_state_t *s = c->sm_state;
+        fprintf(f, "%d%d%d_%u_%u_", !!s->sm_support, !!s->sm_enabled, !!s->can_resume, s->sm_sent_nr, s->sm_handled_nr);
+        fput_text(f, s->id, s->id ? strlen(s->id) : 0);
+        fputc('_', f);
+        for (n = 0, e = c->send_queue_head; e && n < WALK_LIMIT; e = e->next, n++) {
+            if (n) fputc('.', f);
+            fput_text(f, e->data, e->len);
+        }
+        if (!n) fputc('-', f);
+        fputc('_', f);
+        for (n = 0, e = s->sm_queue.head; e && n < WALK_LIMIT; e = e->next, n++) {
+            if (n) fputc('.', f);
+            fprintf(f, "%u:", e->sm_h);
+            fput_text(f, e->data, e->len);
+        }
+        if (!n) fputc('-', f);
+    }
+    fclose(f);
+    return buf;
+}
+
 /* ---------------------------------------------------------------- snapshot + native twin */
 static char *dupn(const char *d, size_t n)
 {
@@ -300,11 +342,15 @@ static void feed(vc_t *v, const char *xml)
     free(copy);
 }
 
-static void run_ops(vc_t *v, char **tok, int n)
+static void run_ops(vc_t *v, char **tok, int n, const char *name)
 {
     int i;
     xmpp_conn_t *c = v->conn;
+    char *xbuf = NULL, *prev_live = NULL;
+    size_t xlen = 0;
+    FILE *x = open_memstream(&xbuf, &xlen);
     if (n == 0) putchar('-');
+    if (n == 0) fputc('-', x);
     for (i = 0; i < n; i++) {
         char *o = tok[i];
         if (i) putchar(',');
@@ -365,7 +411,25 @@ static void run_ops(vc_t *v, char **tok, int n)
             if (v->cb_null) printf("~null");
             else printf("~%zu:%lu", v->cb_len, v->cb_sum);
         }
+        {
+            char *live = live_state(c, v->sm_ok);
+            size_t k;
+            if (i) fputc(',', x);
+            if (!v->cb_seen) fputc('=', x);
+            else if (v->cb_null) fputs("null", x);
+            else if (v->blob_len == 0) fputc('z', x);
+            else for (k = 0; k < v->blob_len; k++) fprintf(x, "%02x", v->blob[k]);
+            fputc('|', x);
+            if (prev_live && !strcmp(prev_live, live)) fputc('=', x);
+            else fputs(live, x);
+            free(prev_live);
+            prev_live = live;
+        }
     }
+    free(prev_live);
+    fclose(x);
+    printf(" %sx=%s", name, xbuf);
+    free(xbuf);
 }
 
 /* ---------------------------------------------------------------- one scenario */
@@ -413,7 +477,8 @@ static void scenario(char *line)
         src.conn->stream_negotiation_completed = 1;
         src.conn->sock = 0;
         printf(" sops=");
-        run_ops(&src, tok + 4, slash - 4);
+        src.sm_ok = 1;
+        run_ops(&src, tok + 4, slash - 4, "sops");
         src.cb_seen = 0;
         trigger_sm_callback(src.conn);
         printf(" src=");
@@ -453,12 +518,13 @@ static void scenario(char *line)
             printf(" twin=nul");
     }
     printf(" ops=");
-    run_ops(&rst, tok + first, ntok - first);
+    run_ops(&rst, tok + first, ntok - first, "ops");
     printf(" fin=");
     dump_conn2(rst.conn, rst.sm_ok);
     if (have_twin) {
         printf(" tops=");
-        run_ops(&twin, tok + first, ntok - first);
+        twin.sm_ok = 1;
+        run_ops(&twin, tok + first, ntok - first, "tops");
         printf(" tfin=");
         dump_conn(twin.conn);
     }
